@@ -198,6 +198,11 @@ func vendingScenario(s *hx.Seq) {
 									var st *traits.Consumable_Stock
 									var err error
 									if p := guard(func() {
+										if n == 1 {
+											// (the single dispenses go through the server's Dispense, the longer histories through the model)
+											st, err = vendingpb.NewModelServer(m).Dispense(context.Background(), &traits.DispenseRequest{Name: "v", Consumable: "milk", Quantity: &traits.Consumable_Quantity{Unit: qu, Amount: float32(qa)}})
+											return
+										}
 										st, err = m.DispenseInstantly("milk", &traits.Consumable_Quantity{Unit: qu, Amount: float32(qa)})
 									}); p != nil {
 										s.Fail("panic "+name, fmt.Sprintf("DispenseInstantly panicked: %v", p), nil)
@@ -236,6 +241,10 @@ func vendingScenario(s *hx.Seq) {
 										s.Fail("dispense-error "+name, fmt.Sprintf("unexpected error %v", err), nil)
 										failed = true
 										break
+									}
+									if ld := cur.LastDispensed; ld.GetUnit() != qu || !close32(ld.GetAmount(), qa) {
+										s.Fail("last-dispensed "+name, fmt.Sprintf("after dispensing %v%v the stock's last_dispensed is %s", qa, qu, showQ(ld)), nil)
+										failed = true
 									}
 									okU := (cur.Used == nil) == !nu.present && (cur.Used == nil || (cur.Used.Unit == nu.unit && close32(cur.Used.Amount, nu.amount)))
 									okR := (cur.Remaining == nil) == !nr.present && (cur.Remaining == nil || (cur.Remaining.Unit == nr.unit && close32(cur.Remaining.Amount, nr.amount)))
